@@ -342,6 +342,24 @@ theorem world_paused_machine_is_frozen (w : WState) (hp : w.g.paused = true) (op
           rfl
         simp [this]
 
+/-- **world_killed_is_forever**: over every history of the world state machine a bank in the KilledByBankruptcy state stays in it
+    (no instruction of the machine resets an operational state: `step_bank_frame`), so the refusals of a killed bank
+    (`world_killed_or_paused_bank_untouched` and the gates above) are permanent -/
+theorem world_killed_is_forever (ops : List WOp) : ∀ (w : WState) (j : Nat) (x : WBank), w.banks[j]? = some x → x.v.opState = 3 →
+    ∃ x', (w.run ops).banks[j]? = some x' ∧ x'.v.key = x.v.key ∧ x'.v.opState = 3 := by
+  induction ops with
+  | nil => intro w j x hx h3; exact ⟨x, hx, rfl, h3⟩
+  | cons op rest ih =>
+    intro w j x hx h3
+    simp only [WState.run, List.foldl_cons]
+    obtain ⟨x1, hx1, c1⟩ := step_bank_frame w op j x hx
+    have h31 : x1.v.opState = 3 := by
+      rcases c1.2.2.2.2.2.2.2.2.2.2 with h | h
+      · rw [h, h3]
+      · exact h
+    obtain ⟨x2, hx2, k2, o2⟩ := ih (w.step op) j x1 hx1 h31
+    exact ⟨x2, hx2, by rw [k2, c1.1], o2⟩
+
 end whole_instructions
 
 end Mfi.Props.C14
